@@ -833,6 +833,19 @@ ROUND2_MUTANTS = [
 ]
 MUTANTS += ROUND2_MUTANTS
 
+LOGGING_TWIN = [
+    dict(id="twin-logging", props=ALL, benign=True, edits=[
+        (MARSHAL, "import itertools\n", "import itertools\nimport logging\n"),
+        (MARSHAL, "from ...spec.structures.structures import TPMS_AUTH_COMMAND\n", "from ...spec.structures.structures import TPMS_AUTH_COMMAND\n\nlogger = logging.getLogger(__name__)\n"),
+        (MARSHAL, "    size = 0\n    values = {}\n    element_size, element_value = None, None\n", "    size = 0\n    values = {}\n    logger.debug(\"struct %s at %s\", tpm_type.__name__, path)\n    element_size, element_value = None, None\n"),
+        (MARSHAL, "    tpm_type = Command\n    command_size_constraint = SizeConstraint()\n", "    tpm_type = Command\n    logger.debug(\"command at %s\", path)\n    command_size_constraint = SizeConstraint()\n"),
+        (MARSHAL, "    values = {}\n    size_field, buffer_field = fields(tpm_type)\n", "    values = {}\n    logger.debug(\"tpm2b %s\", tpm_type.__name__)\n    size_field, buffer_field = fields(tpm_type)\n"),
+        (MARSHAL, "    buffer_iter = iter(buffer)\n", "    buffer_iter = iter(buffer)\n    logger.debug(\"decoding %s\", tpm_type)\n"),
+        (MARSHAL, "        _, command = yield from process(Command, path, abort_on_error=abort_on_error)\n", "        logger.debug(\"next message pair\")\n        _, command = yield from process(Command, path, abort_on_error=abort_on_error)\n"),
+    ]),
+]
+MUTANTS += LOGGING_TWIN
+
 # seeded regressions written by independent sub-agents (seeded/<id>/): kept as regression tests of the checkers
 import glob as _glob
 import json as _json
